@@ -200,6 +200,20 @@ Theorem C05_prepend_is_the_plain_move :
 Proof. exact prepend_plain. Qed.
 Print Assumptions C05_prepend_is_the_plain_move.
 
+(* detach and remove in the same reading, for a node of any kind that is there: the subtree becomes a tree of its own in front of
+   the store (detach) or is gone (remove); where it stood, two text nodes that now touch read as one *)
+Theorem C05_detach_is_the_plain_cut :
+  forall st n z, Good st -> (cons st = true -> noadj st) -> cur st n = Some z ->
+    erase (store (fst (m_detach st n))) = content (cons st) (fapp (tree_of st n) (fdel n (store st))).
+Proof. exact detach_plain. Qed.
+Print Assumptions C05_detach_is_the_plain_cut.
+
+Theorem C05_remove_is_the_plain_deletion :
+  forall st n z, Good st -> (cons st = true -> noadj st) -> cur st n = Some z ->
+    erase (store (fst (m_remove st n))) = content (cons st) (fdel n (store st)).
+Proof. exact remove_plain. Qed.
+Print Assumptions C05_remove_is_the_plain_deletion.
+
 (* the argument checks, and the successful outcome, are what the statements above assume *)
 Theorem C05_checked_calls_succeed :
   forall st,
